@@ -790,7 +790,10 @@ def check_c16(ctx: Ctx, job):
         s.idle_until_quiet(30)
         loader = sdl.build(cfg_l)
         # 1. an empty dict is a no-op (also right after a state_dict() on the not yet iterated loader)
-        if job.get("sd_before_empty"):
+        if job.get("sd_before_empty") and cfg_l.get("sampler") != "custom_stateful":
+            # (not with a user sampler that is its own iterator and keeps its position across iter() calls: the iterator
+            # pre-created by state_dict() has already drawn from it, so "a fresh epoch" of that sampler is its remainder -
+            # that is the sampler's semantics, not the loader's)
             s.begin_op()
             loader.state_dict()
         loader.load_state_dict({})
